@@ -273,7 +273,11 @@ def r20e(chk, rid='R20.e'):
              # the declaration ends at its own "?>": an encoding="..." further down is not its pseudo-attribute; the pseudo-attributes may stand on separate lines
              (None, 'a declaration without encoding, a later processing instruction with one on the same line'): b'<?xml version="1.0"?><?pi encoding="koi8-r"?><a/>',
              (None, 'a declaration without encoding, a later processing instruction with one on the next line'): b'<?xml version="1.0"?>\n<?pi encoding="koi8-r"?><a/>',
-             ('iso-8859-5', 'pseudo-attributes on separate lines'): b'<?xml version="1.0"\n  encoding="ISO-8859-5"\n?><a/>'}
+             ('iso-8859-5', 'pseudo-attributes on separate lines'): b'<?xml version="1.0"\n  encoding="ISO-8859-5"\n?><a/>',
+             # text documents are characters, not bytes: any character may stand among the first four
+             (None, 'a text document with characters above U+00FF at its start'): '<\u0434\u043e\u043a/>',
+             (None, 'a text document that starts with a decoded byte order mark'): '\ufeff<a>\u20ac</a>',
+             ('koi8-r', 'a text document with a declaration and non-Latin-1 content'): '<?xml version="1.0" encoding="KOI8-R"?><\u0434/>'}
     n = bad = 0
     per_decl = {}
     intr = {
@@ -287,9 +291,13 @@ def r20e(chk, rid='R20.e'):
             for kind in ('bytes', 'str', 'file@0', 'file@3'):
                 if kind == 'str' and bom:
                     continue  # a BOM is a byte-level signature
+                if isinstance(body, str) and (kind != 'str' or bom):
+                    continue  # a document given as text
                 for incl in (True, False):
-                    data = bom + body
-                    if kind == 'str':
+                    data = body if isinstance(body, str) else bom + body
+                    if isinstance(body, str):
+                        arg = body
+                    elif kind == 'str':
                         arg = data.decode('latin-1')
                     elif kind == 'bytes':
                         arg = data
